@@ -26,9 +26,11 @@ BITS = {0: "correspondence: model output differs from implementation output",
 
 # ----------------------------------------------------------------------------------------- pools
 LANGS = ["Ab", "aB", "ab", "AB", "b", "B", "German", "german", "GERMAN", "Éire", "éire", "Zulu",
-         "zulu", "Xhosa", "Çat", "çat", "a b", "Z"]
+         "zulu", "Xhosa", "Çat", "çat", "a b", "Z",
+         # not NFC-normal (base letter + combining mark), and a pair that differs by normalisation form only
+         "Gua\u0303a", "Gu\u00e3a", "Ko\u0308ln", "E\u0301ire"]
 CONCEPTS = ["hand", "Hand", "HAND", "foot", "Foot", "arm", "Über", "über", "Ärm", "I", "i", "eye",
-            "the eye", "Eye"]
+            "the eye", "Eye", "cafe\u0301", "caf\u00e9", "o\u0308l", "ma\u0303o"]
 IPA = ["", "hant", "hand", "fus", "fut", "a", "A", "æ", "bɔ", "x y", "10", "0", "1"]
 TOK = ["h", "a", "n", "t", "ɔ", "f", "u"]
 SPELL = {"doculect": ["doculect", "language", "taxa", "taxon"],
@@ -73,13 +75,17 @@ def gen_case(rng, size=4, source=None):
     if rng.random() < 0.4 and nl >= 2:                      # force a case-folding collision
         langs[1] = rng.choice([langs[0].upper(), langs[0].lower(), langs[0].swapcase()])
         langs = list(dict.fromkeys(langs))
+    if rng.random() < 0.12 and nl >= 2 and source != "file":   # two names that differ by normalisation form only
+        langs[:2] = ["Gua\u0303a", "Gu\u00e3a"]
+        langs = list(dict.fromkeys(langs))
     concepts = rng.sample(CONCEPTS, nc)
     if rng.random() < 0.3 and nc >= 2:
         concepts[1] = rng.choice([concepts[0].upper(), concepts[0].lower(), concepts[0].swapcase()])
         concepts = list(dict.fromkeys(concepts))
-    if source == "file":
-        langs = [l for l in langs if l.strip() == l]
-        concepts = [c for c in concepts if c.strip() == c]
+    if source == "file":          # read_qlc strips the cells and NFC-normalises the file
+        import unicodedata
+        langs = [l for l in langs if l.strip() == l and unicodedata.normalize("NFC", l) == l] or ["Ab"]
+        concepts = [c for c in concepts if c.strip() == c and unicodedata.normalize("NFC", c) == c] or ["hand"]
     cols = ["doculect", "concept", "ipa", "cogid"]
     for extra, p in (("cogids", 0.45), ("tokens", 0.3), ("note", 0.3)):
         if rng.random() < p:
